@@ -7,6 +7,8 @@ import Mathlib.Data.Matrix.Mul
 import Mathlib.LinearAlgebra.Matrix.Kronecker
 import Mathlib.Tactic
 import QG.Spec.GateAlgebra
+import QG.Model.Binary
+import QG.Lemmas.BinaryBits
 /-!
 # The concrete `n`-qubit register
 
@@ -234,5 +236,74 @@ theorem E2_eq_matrix (M : M4 R) (a b : Fin n) (hab : a ≠ b) (ψ : State R n) (
         · subst hpa; simp [upd_same]
         · rw [upd_other _ _ _ _ hpa]; exact hall p hpa hpb
     simp [this]
+
+/-! ### flat vectors: the bridge to the model's lists
+
+The model's state vector is the `List` of its `2^n` entries in numpy's flat order.  `idx x` is the
+position of the basis state `x` (`int(bits, 2)` of the string `x 0, x 1, …`), `bitsFn n i` the basis
+state at position `i`; `listOf`/`vecOf` convert between `State R n` and lists. -/
+open QG.Model.Binary QG.Lemmas.Binary
+
+/-- the scalar dictionary of the model, instantiated with the semiring operations -/
+def semiringScalar (R : Type) [CommSemiring R] : Scalar R := ⟨0, 1, (· + ·), (· * ·)⟩
+
+/-- entry lookup of the model: `gate[int(a), int(b)]`, `gate[int(a+b,2), int(c+d,2)]` -/
+def regEntries (R : Type) [CommSemiring R] : Entries R (M2 R) (M4 R) where
+  get2 M a b := M a b
+  get4 M a b c d := M (a, b) (c, d)
+
+/-- flat index of a basis state (qubit 0 = most significant bit) -/
+def idx (x : BV n) : Nat := intOfBits (List.ofFn x)
+
+/-- the basis state at flat index `i` -/
+def bitsFn (n i : Nat) : BV n := fun q => i.testBit (n - 1 - q)
+
+/-- the flat list of a state -/
+def listOf (ψ : State R n) : List R := (List.range (2 ^ n)).map fun i => ψ (bitsFn n i)
+
+/-- the state of a flat list -/
+def vecOf (l : List R) : State R n := fun x => l.getD (idx x) 0
+
+theorem ofFn_bitsFn (n i : Nat) : List.ofFn (bitsFn n i) = bitsBE n i := by
+  apply List.ext_getElem
+  · simp [bitsBE_length]
+  · intro p h1 h2
+    simp [bitsFn, bitsBE]
+
+theorem idx_lt (x : BV n) : idx x < 2 ^ n := by
+  have := intOfBits_lt (List.ofFn x)
+  simpa [idx] using this
+
+theorem idx_bitsFn (n i : Nat) (h : i < 2 ^ n) : idx (bitsFn n i) = i := by
+  rw [idx, ofFn_bitsFn, intOfBits_bitsBE_of_lt n i h]
+
+theorem bitsFn_idx (x : BV n) : bitsFn n (idx x) = x := by
+  apply List.ofFn_injective
+  rw [ofFn_bitsFn, idx]
+  have := bitsBE_intOfBits (List.ofFn x)
+  simpa using this
+
+theorem idx_inj (x y : BV n) : idx x = idx y ↔ x = y :=
+  ⟨fun h => by rw [← bitsFn_idx x, ← bitsFn_idx y, h], fun h => h ▸ rfl⟩
+
+omit [CommSemiring R] in
+theorem listOf_length (ψ : State R n) : (listOf ψ).length = 2 ^ n := by simp [listOf]
+
+omit [CommSemiring R] in
+theorem listOf_getElem? (ψ : State R n) (i : Nat) (h : i < 2 ^ n) : (listOf ψ)[i]? = some (ψ (bitsFn n i)) := by
+  simp [listOf, h]
+
+theorem vecOf_listOf (ψ : State R n) : vecOf (listOf ψ) = ψ := by
+  funext x
+  have h := idx_lt x
+  simp only [vecOf, List.getD, listOf_getElem? ψ _ h, Option.getD_some, bitsFn_idx]
+
+theorem listOf_vecOf (l : List R) (h : l.length = 2 ^ n) : listOf (vecOf l : State R n) = l := by
+  apply List.ext_getElem?
+  intro i
+  by_cases hi : i < 2 ^ n
+  · rw [listOf_getElem? _ _ hi]
+    simp [vecOf, idx_bitsFn n i hi, List.getD, h, hi]
+  · rw [List.getElem?_eq_none (by rw [listOf_length]; omega), List.getElem?_eq_none (by omega)]
 
 end QG.Spec.Register
